@@ -620,6 +620,9 @@ func (s *TO2Server) proveOVHdr(ctx context.Context, msg io.Reader) (*cose.Sign1T
 	}
 
 	// Hash request
+	if ov.Header.Val.CertChainHash == nil {
+		return nil, fmt.Errorf("voucher for device %x has no device certificate chain hash", hello.GUID)
+	}
 	helloDeviceHash := protocol.Hash{Algorithm: ov.Header.Val.CertChainHash.Algorithm}
 	helloDeviceHasher, err := newHash(helloDeviceHash.Algorithm)
 	if err != nil {
